@@ -2,6 +2,7 @@ package main
 
 import (
 	"fmt"
+	"os"
 	"strconv"
 	"strings"
 	"time"
@@ -40,6 +41,9 @@ func clusterRender(v *redis.RespValue) string {
 		t := string(v.Text)
 		switch {
 		case strings.HasPrefix(t, "dial tcp"):
+			if os.Getenv("VERIF_RAWERR") != "" {
+				return "Edial(" + strings.ReplaceAll(t, " ", "_") + ")"
+			}
 			return "Edial"
 		case t == "backend exited":
 			return "Eexit"
@@ -166,10 +170,38 @@ func clusterRun(f []string) string {
 	defer func() { cl.C.Close() }()
 	var replies, redirs []string
 	pipelining := false
+	var okAtOpen uint64
+	redirAtOpen, repliesAtOpen := 0, 0
 	var pending []string
 	nodeArg := func(s string) (int, bool) {
 		n, err := strconv.Atoi(s)
 		return n, err == nil && n >= 0 && n < nodes
+	}
+	// awaitRefresh: a redirection or a failed connect has triggered a slot refresh: let it finish, so that what the next command
+	// sees does not depend on a race between the client and the refresh loop (nor shares a connect attempt the loop has in flight)
+	awaitRefresh := func(okBefore uint64) {
+		// a redirection or a failed connect has triggered a slot refresh: let it finish, so that what the
+		// next command sees does not depend on a race between the client and the refresh loop
+		// (60 failed attempts in a row without a success: no configured host answers any more, nothing to wait for)
+		failed0 := metric("upstream.slots_refresh.failure_total")
+		hopeless := func() bool {
+			return metric("upstream.slots_refresh.failure_total") >= failed0+60 && refreshes() == okBefore
+		}
+		for k := 0; k < 600+int(minRate/(2*time.Millisecond)) && refreshes() == okBefore && !hopeless(); k++ {
+			time.Sleep(2 * time.Millisecond)
+		}
+		// several triggers may be queued behind one another (one per redirection): wait until the refresh loop is quiet
+		started := func() uint64 { refreshes(); return metric("upstream.slots_refresh.total") }
+		last, quiet := started(), 0
+		need := 13 + int(minRate/(2*time.Millisecond))
+		for k := 0; k < 1500 && quiet < need && !hopeless(); k++ {
+			time.Sleep(2 * time.Millisecond)
+			if cur := started(); cur == last {
+				quiet++
+			} else {
+				last, quiet = cur, 0
+			}
+		}
 	}
 	for _, t := range toks {
 		if t == "" {
@@ -306,6 +338,9 @@ func clusterRun(f []string) string {
 			}
 			if t == "{" {
 				pipelining = true
+				okAtOpen = refreshes()
+				redirAtOpen, _ = fc.Snapshot()
+				repliesAtOpen = len(replies)
 			} else {
 				pipelining = false
 				// read the replies of everything that was written since '{'
@@ -322,6 +357,9 @@ func clusterRun(f []string) string {
 				}
 				pending = nil
 				time.Sleep(40 * time.Millisecond)
+				if now, _ := fc.Snapshot(); now > redirAtOpen || strings.Contains(strings.Join(replies[repliesAtOpen:], ","), "Edial") {
+					awaitRefresh(okAtOpen)
+				}
 			}
 			continue
 		case 'V':
@@ -379,28 +417,7 @@ func clusterRun(f []string) string {
 		rendered := clusterRender(v)
 		replies = append(replies, rendered)
 		if after > before || strings.Contains(rendered, "Edial") || strings.Contains(rendered, hx.Hex([]byte("finished with "))) {
-			// a redirection or a failed connect has triggered a slot refresh: let it finish, so that what the
-			// next command sees does not depend on a race between the client and the refresh loop
-			// (60 failed attempts in a row without a success: no configured host answers any more, nothing to wait for)
-			failed0 := metric("upstream.slots_refresh.failure_total")
-			hopeless := func() bool {
-				return metric("upstream.slots_refresh.failure_total") >= failed0+60 && refreshes() == okBefore
-			}
-			for k := 0; k < 600+int(minRate/(2*time.Millisecond)) && refreshes() == okBefore && !hopeless(); k++ {
-				time.Sleep(2 * time.Millisecond)
-			}
-			// several triggers may be queued behind one another (one per redirection): wait until the refresh loop is quiet
-			started := func() uint64 { refreshes(); return metric("upstream.slots_refresh.total") }
-			last, quiet := started(), 0
-			need := 13 + int(minRate/(2*time.Millisecond))
-			for k := 0; k < 1500 && quiet < need && !hopeless(); k++ {
-				time.Sleep(2 * time.Millisecond)
-				if cur := started(); cur == last {
-					quiet++
-				} else {
-					last, quiet = cur, 0
-				}
-			}
+			awaitRefresh(okBefore)
 		}
 	}
 	if pipelining {
